@@ -8,7 +8,7 @@
 (* library; sharded files served without content encoding, with Range and   *)
 (* HEAD support.  Per request the server behaves                            *)
 (*   Normal | NotFound | ServerError | ShortRange | LongRange | IgnoreRange *)
-(*   | Drop.                                                                *)
+(*   | Drop | TruncBody.                                                    *)
 (* DESIGN: the client's request sequence for one fetch through a FRESH      *)
 (* accessor: plain: GET info, GET chunk;  sharded: GET info (dispatch),     *)
 (* GET info (sharded accessor), HEAD .shard [HEAD .index, HEAD .data],      *)
@@ -23,7 +23,8 @@ EXTENDS Naturals, Sequences, FiniteSets, TLC
 
 CONSTANTS LengthCheck, StatusCheck, MaxFaults
 
-Beh == {"Normal", "NotFound", "ServerError", "ShortRange", "LongRange", "IgnoreRange", "Drop"}
+Beh == {"Normal", "NotFound", "ServerError", "ShortRange", "LongRange", "IgnoreRange", "Drop",
+        "TruncBody"}     \* TruncBody: headers announce the full length, the connection closes mid-body
 Kinds == {"plain", "shard", "legacy"}
 
 \* request sequence of one fetch; each request: [m (method), rng (is a range
@@ -44,6 +45,7 @@ Reqs(kind, nMinis) ==
 React(r, b) ==
   CASE b = "Normal" -> "go"
     [] b = "Drop" -> "error"
+    [] b = "TruncBody" -> IF r.m = "HEAD" THEN "go" ELSE "error"   \* the client library detects the short body
     [] b \in {"NotFound", "ServerError"} ->
          IF r.m = "HEAD" /\ b = "NotFound" THEN "error"   \* a shard that should exist is reported missing
          ELSE IF StatusCheck \/ r.m = "HEAD" THEN "error" ELSE "garbage"
@@ -92,6 +94,7 @@ FaultFreeEqualsLocal ==
 FaultIsError ==
   (result = "okCorrect") =>
      \A i \in DOMAIN sched :
-        sched[i] = "Normal" \/ (sched[i] \in {"ShortRange", "LongRange", "IgnoreRange"}
-                                 /\ ~Reqs(kind, nMinis)[i].rng)
+        \/ sched[i] = "Normal"
+        \/ (sched[i] \in {"ShortRange", "LongRange", "IgnoreRange"} /\ ~Reqs(kind, nMinis)[i].rng)
+        \/ (sched[i] = "TruncBody" /\ Reqs(kind, nMinis)[i].m = "HEAD")
 =============================================================================
